@@ -8,7 +8,7 @@ use crate::prng::Rng;
 use crate::refi::{parse_pattern, str_match, PKind};
 
 pub const WORDS: &[&str] = &["foo", "bar", "baz", "qux", "Foo", "BAR", "fo", "ob", "a", "b", "x1", "ar", "o", ""];
-pub const TOP_FIELDS: &[&str] = &["a", "b", "c", "d", "num", "flag", "tags", "n.a", "n.b", "m.x", "arr[0]", "arr[1]", "two words", "m.x[1]", "n.a[0]", "two  words", " lead", "tab\tkey", "trail "];
+pub const TOP_FIELDS: &[&str] = &["a", "b", "c", "d", "num", "flag", "tags", "n.a", "n.b", "m.x", "arr[0]", "arr[1]", "two words", "m.x[1]", "n.a[0]", "two  words", " lead", "tab\tkey", "trail ", "#phrase", "a_b1", "A.B"];
 pub const NEST_FIELDS: &[&str] = &["n", "m", "p"];
 pub const INNER_FIELDS: &[&str] = &["a", "b", "x", "y", "q.r", "x  y"];
 pub const INT_CONSTS: &[i64] = &[0, 1, 2, 5, -1, -3, 10, 7045, i64::MAX, i64::MIN, 9007199254740993];
